@@ -17,6 +17,7 @@ import (
 	"errors"
 	"fmt"
 	"regexp"
+	"runtime/debug"
 	"sort"
 	"strings"
 	"sync"
@@ -831,13 +832,22 @@ func c11Orders(pids []int, points []c11Point) [][]int {
 // c11RunConfig: write side for one configuration, then every condition that belongs to this worker.
 // owner: this worker reports the write-side verdicts of the configuration.
 func c11RunConfig(rep *kit.Report, cfg c11Config, thorough bool, owner bool, conds []c11CondCase, mine func(condIdx int) bool) {
-	w := c11NewWorld(cfg)
-	defer w.pw.Close()
 	tier := "quick"
 	if thorough {
 		tier = "thorough"
 	}
 	wcase := c11Case{Cfg: cfg, Tier: tier}
+	defer func() {
+		if r := recover(); r != nil {
+			msg := fmt.Sprint(r)
+			if strings.HasPrefix(msg, "c11") {
+				panic(r) // harness precondition: tool error
+			}
+			rep.Violation("panic_in_routing_or_mapping", cfg.String(), msg+"\n"+string(debug.Stack()), wcase)
+		}
+	}()
+	w := c11NewWorld(cfg)
+	defer w.pw.Close()
 	vio := func(kind, key, detail string) {
 		if owner {
 			rep.Violation(kind, cfg.String()+" | "+key, detail, wcase)
@@ -867,8 +877,7 @@ func c11RunConfig(rep *kit.Report, cfg c11Config, thorough bool, owner bool, con
 		group uint64
 	}
 	firstShard := map[pidGroup]uint64{}
-	checkWrite := func(phase string, pids []int, sent map[int][]uint64, err error) map[int]uint64 {
-		res := map[int]uint64{}
+	checkWrite := func(phase string, pids []int, sent map[int][]uint64, err error) {
 		for _, pid := range pids {
 			p := points[pid]
 			if owner {
@@ -908,26 +917,27 @@ func c11RunConfig(rep *kit.Report, cfg c11Config, thorough bool, owner bool, con
 			} else if prev != shs[0] {
 				vio("point_shard_not_deterministic", p.String(), fmt.Sprintf("group %d: an earlier write of the same point went to shard %d, %s goes to shard %d", g.ID, prev, phase, shs[0]))
 			}
-			res[pid] = shs[0]
 			stored[c11Stored{pid, shs[0]}] = true
 			if owner {
 				rep.Count("points_routed", 1)
 			}
 		}
-		return res
 	}
 
 	// phase 1
 	orders1 := c11Orders(pids1, points)
 	sent, err := w.write(points, orders1[0])
-	first := checkWrite("phase1", pids1, sent, err)
+	checkWrite("phase1", pids1, sent, err)
 
 	// re-sharding (range): split the newest group
 	if cfg.isRange() && len(cfg.Bounds) > 0 {
 		rp, _ := w.data.RetentionPolicy(c11DB, c11RP)
 		newest := rp.ShardGroups[len(rp.ShardGroups)-1]
 		if newest.StartTime.UnixNano() != cfg.b(1) {
-			panic(fmt.Sprintf("c11: newest group is [%v,%v), expected start %d", newest.StartTime, newest.EndTime, cfg.b(1)))
+			// only possible when phase 1 already put points into wrong groups (reported above)
+			vio("newest_group_unexpected", "before re-sharding", fmt.Sprintf("after writing times up to B2-1 the newest shard group is [%d,%d), expected [B1,B2) = [%d,%d)",
+				newest.StartTime.UnixNano(), newest.EndTime.UnixNano(), cfg.b(1), cfg.b(2)))
+			return
 		}
 		c11Must(w.data.ReSharding(&meta2.ReShardingInfo{Database: c11DB, Rp: c11RP, ShardGroupID: newest.ID, SplitTime: cfg.split(), Bounds: cfg.Bounds}))
 	}
@@ -941,9 +951,6 @@ func c11RunConfig(rep *kit.Report, cfg c11Config, thorough bool, owner bool, con
 		sent, err := w.write(points, []int{pid})
 		checkWrite("phase2/single", []int{pid}, sent, err)
 	}
-	_ = first
-
-	// group spans: half-open, aligned, disjoint for hash sharding
 	rp, _ := w.data.RetentionPolicy(c11DB, c11RP)
 	if owner {
 		rep.Max("max_groups", int64(len(rp.ShardGroups)))
@@ -1018,9 +1025,14 @@ func c11CheckCond(rep *kit.Report, w *c11World, cfg c11Config, tier string, poin
 			panic("c11: tabulated matcher disagrees with direct evaluation")
 		}
 		kind := c11MissKind(cc, false)
-		g := w.groupOf(s.shard)
-		if g != nil && (g.StartTime.UnixNano() > tmax || g.EndTime.UnixNano() <= tmin) {
-			kind = "group_with_match_not_selected"
+		if g := w.groupOf(s.shard); g != nil {
+			selected := false
+			for i := range groups {
+				selected = selected || groups[i].ID == g.ID
+			}
+			if !selected {
+				kind = "group_with_match_not_selected"
+			}
 		}
 		ids := make([]uint64, 0, len(shards))
 		for id := range shards {
